@@ -389,6 +389,44 @@ class HvParamPair(Logic):
         Xor2(self, 'x', r1, r2, r)
 
 
+class HvOwnScale(Logic):
+    """a stage that creates (owns) its own result wire: r = a << n"""
+    def __init__(self, parent, name, a, n):
+        super().__init__(parent, name)
+        self.addIn('a', a)
+        self.r = self.wire('scaled', a.getWidth())
+        self.addOut('r', self.r)
+        ShiftLeftConstant(self, 'shl', a, n, self.r)
+
+
+class HvOwnDelay(Logic):
+    """a stage that creates its own result wire: r = a one cycle later"""
+    def __init__(self, parent, name, a):
+        super().__init__(parent, name)
+        self.addIn('a', a)
+        self.r = self.wire('delayed', a.getWidth())
+        self.addOut('r', self.r)
+        Reg(self, 'reg', a, self.r)
+
+
+class HvUsesOwned(Logic):
+    """multi-bit wires between two children that were created by a child, not by this block; plus one wire of its own"""
+    def __init__(self, parent, name, a, b, r, q, c):
+        super().__init__(parent, name)
+        self.addIn('a', a)
+        self.addIn('b', b)
+        self.addOut('r', r)
+        self.addOut('q', q)
+        self.addOut('c', c)
+        s = HvOwnScale(self, 'scale', a, 1)
+        Add(self, 'add', s.r, b, r)
+        d = HvOwnDelay(self, 'delay', r)
+        Sub(self, 'sub', d.r, a, q)
+        t = self.wire('t', a.getWidth())
+        And2(self, 'and', a, b, t)
+        Xor2(self, 'xor', t, a, c)
+
+
 class HvInvChild(Not):
     """a leaf that inherits propagate() from a library block"""
     pass
